@@ -15,7 +15,7 @@ for n in 1 2; do
   echo "$sid confirm: $(cat /tmp/confirm/$sid.log | cut -c1-140)"
   python3 - <<PY
 import json
-m={"breaks":"$prop","source":"round 2: written by a fresh sub-agent given only the property text, a scratch worktree of /repo and one-line descriptions of the round-1 changes to avoid (no access to /verif)"}
+m={"breaks":"$prop","source":"round ${ROUND:-3}: written by a fresh sub-agent given only the property text, a scratch worktree of /repo and one-line descriptions of the round-1 changes to avoid (no access to /verif)"}
 json.dump(m,open("$d/meta.json","w"),indent=1)
 PY
   python3 tools/run_seeds.py $sid $prop 2>&1 | grep -E "^C[0-9]|^    " | cut -c1-230
